@@ -77,22 +77,52 @@ func (z *Decimal) GobDecode(buf []byte) error {
 		return errors.New("Decimal.GobDecode: buffer too small")
 	}
 
-	oldPrec := z.prec
-	oldMode := z.mode
-
 	b := buf[1]
-	z.mode = RoundingMode((b >> 5) & 7)
-	z.acc = Accuracy((b>>3)&3) - 1
-	z.form = form((b >> 1) & 3)
-	z.neg = b&1 != 0
-	z.prec = binary.BigEndian.Uint32(buf[2:])
+	mode := RoundingMode((b >> 5) & 7)
+	acc := Accuracy((b>>3)&3) - 1
+	f := form((b >> 1) & 3)
+	prec := binary.BigEndian.Uint32(buf[2:])
+	if mode > ToPositiveInf || acc > Above || f > inf {
+		return errors.New("Decimal.GobDecode: invalid rounding mode, accuracy or form")
+	}
 
-	if z.form == finite {
+	var (
+		exp  int32
+		mant dec
+	)
+	if f == finite {
 		if len(buf) < 10 {
 			return errors.New("Decimal.GobDecode: buffer too small for finite value")
 		}
-		z.exp = int32(binary.BigEndian.Uint32(buf[6:]))
-		z.mant = z.mant.setBytes(buf[10:])
+		exp = int32(binary.BigEndian.Uint32(buf[6:]))
+		// decode into a new slice: z must remain valid if the mantissa is rejected
+		mant = dec(nil).setBytes(buf[10:])
+		// The mantissa must be that of a valid finite Decimal: non-empty,
+		// made of decimal Words, normalized and no longer than prec digits.
+		if len(mant) == 0 || mant[len(mant)-1] < _DB/10 || prec == 0 {
+			return errors.New("Decimal.GobDecode: invalid mantissa or precision")
+		}
+		for _, w := range mant {
+			if w >= _DB {
+				return errors.New("Decimal.GobDecode: invalid mantissa")
+			}
+		}
+		if uint64(len(mant))*_DW-uint64(mant.trailingZeroDigits()) > uint64(prec) {
+			return errors.New("Decimal.GobDecode: mantissa does not fit precision")
+		}
+	}
+
+	oldPrec := z.prec
+	oldMode := z.mode
+
+	z.mode = mode
+	z.acc = acc
+	z.form = f
+	z.neg = b&1 != 0
+	z.prec = prec
+	if f == finite {
+		z.exp = exp
+		z.mant = mant
 	}
 
 	if oldPrec != 0 {
